@@ -28,7 +28,7 @@ func b(e Event, k string, def bool) bool {
 }
 func s(e Event, k string) string { v, _ := e[k].(string); return v }
 
-func normalise(e Event, strictResume bool) Event {
+func Normalise(e Event, strictResume bool) Event {
 	switch s(e, "ev") {
 	case "AuthRan":
 		return Event{"ev": "AuthRan", "ran": s(e, "ran"), "ok": b(e, "ok", false)}
@@ -82,7 +82,7 @@ func LoadDir(dir string, strictResume bool) (groups [][]Event, err error) {
 			if json.Unmarshal(sc.Bytes(), &e) != nil {
 				continue
 			}
-			n := normalise(e, strictResume)
+			n := Normalise(e, strictResume)
 			if n == nil {
 				continue
 			}
